@@ -7,7 +7,7 @@ FAMILIES = {
     "C16": ("f5_annot", None),
     "C02": ("f2_router", "C02"), "C03": ("f2_router", "C03"), "C05": ("f2_router", "C05"), "C09": ("f2_router", "C09"), "C12": ("f2_router", "C12"),
     "C01": ("f1_pipeline", "C01"), "C04": ("f1_pipeline", "C04"), "C08": ("f1_pipeline", "C08"), "C10": ("f1_pipeline", "C10"),
-    "C13": ("f1_pipeline", "C13"), "C14": ("f1_pipeline", "C14"), "C06": ("f1_pipeline", "C06"), "C18": ("f1_pipeline", "C18"),
+    "C13": ("f1_pipeline", "C13"), "C14": ("f1_pipeline", "C14"), "C06": ("f1_pipeline", "C06"), "C18": ("f1_pipeline", "C18"), "C07": ("f1_pipeline", "C07"), "C11": ("f1_pipeline", "C11"),
     "C20": ("f6_config", None),
     "C19": ("f7_session", None),
 }
